@@ -200,9 +200,6 @@ fn check_stmt(before: &Context, text: &str, probes: &[String], exact: bool) -> C
             } else {
                 if exact && r2.value != ro.value {
                     only_base = true;
-                    if std::env::var("C15_DEBUG").is_ok() {
-                        eprintln!("only-base: `{}` -> {:?} vs echo `{}` -> {:?}", text, ro.value, echo, r2.value);
-                    }
                 }
                 let mut f = None;
                 for p in probes {
